@@ -345,6 +345,12 @@ class SchedModel:
                     # a package wrapper that hands the node function to an external callable without using the pool it is given
                     info["kind"] = "foreign"
                     info["callee"] = self._foreign_wrapper(q)
+                elif q == "ext:functools.partial" and self._direct_submission(s, pm) is not None:
+                    # the wrapper written in place:  loop.run_in_executor(<the scheduler's pool>, partial(ctx.run, xn.execute, ..))
+                    info["kind"] = "async"
+                    info["callee"] = None
+                    info["pool_passed"] = True
+                    info["direct"] = self._direct_submission(s, pm)
                 elif q is not None and q.startswith("ext:") and not any(dotted(a) == self.pool_var for a in list(s.args) + [k.value for k in s.keywords]):
                     # the node function is handed to an external callable that does not involve the scheduler's pool
                     info["kind"] = "foreign"
@@ -364,6 +370,13 @@ class SchedModel:
                     else:
                         info.setdefault("other_wrappers", []).append(d)
                 cur = par
+            if info.get("direct") is not None:
+                cur = info["direct"]
+                while id(cur) in pm and not isinstance(cur, ast.stmt):
+                    if isinstance(pm[id(cur)], ast.Await):
+                        info["awaited"] = True
+                    cur = pm[id(cur)]
+                info.pop("other_wrappers", None)
             info["stmt"] = cur
             if isinstance(cur, ast.Assign) and len(cur.targets) == 1 and isinstance(cur.targets[0], ast.Name):
                 info["future_var"] = cur.targets[0].id
@@ -388,6 +401,22 @@ class SchedModel:
                     c = self.count_of(body[0].value, allow_funcs=False)
                     if c is not None:
                         self.count_funcs[g.name] = c
+
+    def _direct_submission(self, part: ast.Call, pm: Dict[int, ast.AST]) -> Optional[ast.Call]:
+        """The `X.run_in_executor(<pool>, P)` call that submits the partial `part` (given in place or through a local bound once)."""
+        par = pm.get(id(part))
+        cands: List[ast.Call] = []
+        if isinstance(par, ast.Call):
+            cands = [par]
+        elif isinstance(par, ast.Assign) and len(par.targets) == 1 and isinstance(par.targets[0], ast.Name):
+            v = par.targets[0].id
+            if sum(1 for n in own_walk(self.loop_stmt) if isinstance(n, ast.Assign) and dotted(n.targets[0]) == v) == 1:
+                cands = [n for n in own_walk(self.loop_stmt) if isinstance(n, ast.Call) and len(n.args) == 2 and dotted(n.args[1]) == v]
+        for c in cands:
+            if isinstance(c.func, ast.Attribute) and c.func.attr == "run_in_executor" and len(c.args) == 2 \
+                    and dotted(c.args[0]) == self.pool_var and (c.args[1] is part or dotted(c.args[1]) is not None):
+                return c
+        return None
 
     def _discover_bound(self) -> None:
         """The parameter the in-flight count is compared with (falls back to the pool's max_workers when it is a name)."""
